@@ -474,6 +474,8 @@ def plan(b, seed, per_valid, cap):
                         meta.append((s, m, "request", label, mp, locs, True))
                 if m.get("result") and isinstance(res, dict):
                     for label, mr in mutations(b.schema, m["result"], res, rlocs, rng, cap // 2):
+                        if any(loc == "header" and isinstance(mr.get(an), list) and len(mr[an]) != 1 for an, loc in rlocs.items()):
+                            continue  # an array in a response header survives only with exactly one element: C03's recorded finding
                         c2 = dict(base, script={"result": mr})
                         cmds.append(c2)
                         meta.append((s, m, "response", label, mr, rlocs, True))
@@ -912,6 +914,8 @@ def run(c):
     c.cov["rule"] += (" Then %d designs around primitive alias types with validations; the odd ones give the attributes an Enum of their own "
                       "whose members partly violate the alias's rules." % na)
     builds += e2e.build_many(c.seed, range(na), lambda i: ["-alias-design"], work)
+    # the solo table: methods whose payload (and result) is ONE attribute
+    builds += e2e.build_many(c.seed, range(4 if c.tier == "quick" else 12), lambda i: ["-solo-design"], work)
     builds += e2e.build_many(c.seed, range(n), flags_for, work)
     lines_total = 0
     for b in builds:
